@@ -372,3 +372,14 @@ Definition r_fifo (max : N) (h : list uitem) : Prop :=
   r_outputs max h = s_outputs max h /\
   map snd (mem (core (r_final max h))) = s_final max h /\
   map snd (db (core (r_final max h))) = s_final max h.
+
+(* ==== a submission as the caller hands it over: transactions with their sizes ==============================
+   SubmitBatchTxs (sequencer.go:87-111) distinguishes three shapes of req.Batch — nil pointer, no transactions,
+   some transactions — and looks at nothing else: not at the number of transactions beyond zero / non-zero and
+   at no transaction's size.  The whole list becomes ONE coresequencer.Batch and ONE call of AddBatch
+   (sequencer.go:97-99), i.e. one bound check, one Put, one queue entry.  [enc] names the contents of a
+   non-empty transaction list (the model's batch id; equal lists = equal ids). *)
+Definition tx := (N * N)%type.                        (* (transaction id, size in bytes) *)
+Definition payload (l : list tx) : N := fold_right (fun t a => snd t + a) 0 l.
+Definition sub_of (enc : list tx -> batch) (req : option (list tx)) : usub :=
+  match req with None => UNil | Some [] => UEmpty | Some l => UB (enc l) end.
